@@ -66,3 +66,60 @@ theorem c04_frun_eq_firRun (b xs : List K) :
   rw [this, c04_fspec_eq_firRun]
 
 end ALV.C12
+
+/-! #### `dft` as coded: linear in the block; the DC bin -/
+namespace ALV.C12
+open Finset
+variable {K : Type} [Field K]
+
+theorem zipWith_map_same {φ β : Type} (g : β → β → β) (F G : φ → β) (l : List φ) :
+    List.zipWith g (l.map F) (l.map G) = l.map fun f => g (F f) (G f) := by
+  induction l with
+  | nil => rfl
+  | cons x xs ih => simp [ih]
+
+theorem dftSum_linear (E : ℕ → K) (c : K) (xs ys : List K) (h : xs.length = ys.length) :
+    dftSum E (List.zipWith (fun x y => c * x + y) xs ys) = c * dftSum E xs + dftSum E ys := by
+  have := dftSumFrom_linear E c xs ys h 0 0 0
+  simp only [mul_zero, add_zero] at this
+  simp only [dftSum, this]
+
+/-- `dft(c·x + y, freqs, normalize)` is `c·dft(x, …) + dft(y, …)`, bin by bin, in both modes; the
+    three calls raise together (ZeroDivisionError: empty blocks, normalised, some frequency) -/
+theorem dft_linear_coded {φ : Type} (kern : φ → ℕ → K) (c : K) (xs ys : List K)
+    (h : xs.length = ys.length) (freqs : List φ) (normalize : Bool) :
+    dft kern (List.zipWith (fun x y => c * x + y) xs ys) freqs normalize =
+      match dft kern xs freqs normalize, dft kern ys freqs normalize with
+      | some X, some Y => some (List.zipWith (fun x y => c * x + y) X Y)
+      | _, _ => none := by
+  have hl : (List.zipWith (fun x y => c * x + y) xs ys).length = ys.length := by simp [h]
+  cases normalize with
+  | false =>
+    simp only [dft, Bool.false_eq_true, if_false, zipWith_map_same]
+    congr 1
+    apply List.map_congr_left
+    intro f _
+    exact dftSum_linear _ c xs ys h
+  | true =>
+    by_cases hc : ys.length = 0 ∧ freqs ≠ []
+    · simp [dft, hl, h, hc]
+    · simp only [dft, if_true, hl, h, hc, if_false, List.map_map, zipWith_map_same]
+      congr 1
+      apply List.map_congr_left
+      intro f _
+      simp only [Function.comp, dftSum_linear _ c xs ys h]
+      ring
+
+theorem evalDirect_one (c : List K) : evalDirect c 1 = c.sum := by
+  have h1 : ∀ (i : ℕ) (c : List K), evalFrom (1 : K) i c = c.sum := by
+    intro i c
+    induction c generalizing i with
+    | nil => rfl
+    | cons x xs ih => simp [evalFrom, ih, pw_eq_pow]
+  exact h1 0 c
+
+theorem dftSum_pw (w : K) (blk : List K) : dftSum (fun n => pw w n) blk = evalDirect blk w := by
+  have := dftSum_pow w blk
+  simpa [pw_eq_pow] using this
+
+end ALV.C12
